@@ -1,12 +1,191 @@
 /- Drv/C12.lean — driver handler for property C12 (line protocol; core-only imports). -/
 import FunsorVerif.Core.Sexp
 import FunsorVerif.Core.XR
+import FunsorVerif.Model.C12
 namespace FV.Drv.C12
-open FV
+open FV FV.C12
 
-/-- `args` are the top-level S-expressions following the property tag on the request line. -/
+/-! wire format
+  G      ::= (g ((NAME size)*) rank (w*) ((row*)*))        -- dim rows of rank entries
+  point  ::= ((NAME (val*))*)
+  answers: ok G | ok (num q) | ok (dense (rows) (info) const) | ok declined | err …
+-/
+
+def ratList? (s : Sexp) : Option (List Rat) := do
+  let xs ← s.asList?
+  xs.mapM ratOfSexp?
+
+def ratRows? (s : Sexp) : Option (List (List Rat)) := do
+  let xs ← s.asList?
+  xs.mapM ratList?
+
+def inputs? (s : Sexp) : Option Inputs := do
+  let xs ← s.asList?
+  xs.mapM fun p =>
+    match p with
+    | Sexp.list [k, n] => do
+        let k ← k.asStr?
+        let n ← n.asNat?
+        pure (k, n)
+    | _ => none
+
+def ng? (s : Sexp) : Option NG :=
+  match s with
+  | Sexp.list [Sexp.atom "g", inp, rank, w, rows] => do
+      let inp ← inputs? inp
+      let rank ← rank.asNat?
+      let w ← ratList? w
+      let rows ← ratRows? rows
+      if w.length != rank then none
+      else if rows.length != total inp then none
+      else if !(rows.all fun r => r.length == rank) then none
+      else pure { inputs := inp, rank := rank, w := ofList w, P := ofRows rows }
+  | _ => none
+
+def ratsToSexp (l : List Rat) : Sexp := Sexp.list (l.map ratToSexp)
+def rowsToSexp (l : List (List Rat)) : Sexp := Sexp.list (l.map ratsToSexp)
+def inputsToSexp (inp : Inputs) : Sexp :=
+  Sexp.list (inp.map fun p => Sexp.list [Sexp.str p.1, Sexp.ofNat p.2])
+
+def ngToSexp (g : NG) : Sexp :=
+  Sexp.list [Sexp.atom "g", inputsToSexp g.inputs, Sexp.ofNat g.rank,
+             ratsToSexp (tabV g.rank g.w), rowsToSexp (tabM g.dim g.rank g.P)]
+
+def denseToSexp (d : Dense) : Sexp :=
+  Sexp.list [Sexp.atom "dense", rowsToSexp (tabM d.dim d.dim d.prec), ratsToSexp (tabV d.dim d.info),
+             ratToSexp d.const]
+
+/-- force the index functions into tables (keeps chained closures cheap) -/
+def NG.norm (g : NG) : NG :=
+  { g with w := ofList (tabV g.rank g.w), P := ofRows (tabM g.dim g.rank g.P) }
+
+def okG (g : NG) : String := "ok " ++ toString (ngToSexp g)
+
+def point? (s : Sexp) : Option (List (String × List Rat)) := do
+  let xs ← s.asList?
+  xs.mapM fun p =>
+    match p with
+    | Sexp.list [k, v] => do
+        let k ← k.asStr?
+        let v ← ratList? v
+        pure (k, v)
+    | _ => none
+
+def pointFn (pt : List (String × List Rat)) : Point := fun k => ofList ((pt.lookup k).getD [])
+
+def affSubs? (s : Sexp) : Option (List AffSub) := do
+  let xs ← s.asList?
+  xs.mapM fun p =>
+    match p with
+    | Sexp.list [k, c, cs] => do
+        let k ← k.asStr?
+        let c ← ratList? c
+        let cs ← cs.asList?
+        let cs ← cs.mapM fun q =>
+          match q with
+          | Sexp.list [nk, nsz, rows] => do
+              let nk ← nk.asStr?
+              let nsz ← nsz.asNat?
+              let rows ← ratRows? rows
+              pure (nk, nsz, rows)
+          | _ => none
+        pure { name := k, const := c, coeffs := cs }
+    | _ => none
+
+def ngs? (s : Sexp) : Option (List NG) := do
+  let xs ← s.asList?
+  xs.mapM ng?
+
+def matEq (n r : Nat) (A B : M) : Bool := tabM n r A == tabM n r B
+
 def handle (args : List Sexp) : String :=
   match args with
-  | _ => "err unimplemented"
+  | [Sexp.atom "offsets", inp] =>
+      match inputs? inp with
+      | some inp =>
+          let (offs, tot) := computeOffsets inp
+          "ok " ++ toString (Sexp.list [inputsToSexp offs, Sexp.ofNat tot])
+      | none => "err bad-args"
+  | [Sexp.atom "dense", g] =>
+      match ng? g with
+      | some g => "ok " ++ toString (denseToSexp g.raw.dense)
+      | none => "err bad-args"
+  | [Sexp.atom "eval", g, pt] =>
+      match ng? g, point? pt with
+      | some g, some pt =>
+          let x := flat g.inputs (pointFn pt)
+          let a := g.raw.eval x
+          let b := g.raw.dense.eval x
+          "ok " ++ toString (Sexp.list [ratToSexp a, ratToSexp b])
+      | _, _ => "err bad-args"
+  | [Sexp.atom "add", a, b] =>
+      match ng? a, ng? b with
+      | some a, some b => okG (NG.add a b)
+      | _, _ => "err bad-args"
+  | [Sexp.atom "align", g, names] =>
+      match ng? g, names.asStrs? with
+      | some g, some names =>
+          match g.align names with
+          | some r => okG r
+          | none => "ok declined"
+      | _, _ => "err bad-args"
+  | [Sexp.atom "rename", g, ren] =>
+      match ng? g, ren.asList? with
+      | some g, some ren =>
+          match ren.mapM (fun p => match p with
+                | Sexp.list [a, b] => do pure ((← a.asStr?), (← b.asStr?))
+                | _ => none) with
+          | some ren =>
+              match g.rename ren with
+              | some r => okG r
+              | none => "ok declined"
+          | none => "err bad-args"
+      | _, _ => "err bad-args"
+  | [Sexp.atom "subsreal", g, pt] =>
+      match ng? g, point? pt with
+      | some g, some pt =>
+          match g.subsReal pt with
+          | some (Sum.inl q) => "ok " ++ toString (Sexp.list [Sexp.atom "num", ratToSexp q])
+          | some (Sum.inr r) => okG r
+          | none => "ok declined"
+      | _, _ => "err bad-args"
+  | [Sexp.atom "subsaffine", g, subs] =>
+      match ng? g, affSubs? subs with
+      | some g, some subs => okG (g.subsAffine subs)
+      | _, _ => "err bad-args"
+  | [Sexp.atom "fuse", gs] =>
+      match ngs? gs with
+      | some (g :: gs) =>
+          if gs.all (fun h => h.inputs == g.inputs) then
+            let s := SG.fuse g.dim ((g :: gs).map NG.raw)
+            okG { inputs := g.inputs, rank := s.rank, w := s.w, P := s.P }
+          else "err inputs-differ"
+      | _ => "err bad-args"
+  | [Sexp.atom "pad", g, r] =>
+      match ng? g, r.asNat? with
+      | some g, some r =>
+          if r < g.rank then "ok declined" else
+          let s := g.raw.padRank r
+          okG { inputs := g.inputs, rank := s.rank, w := s.w, P := s.P }
+      | _, _ => "err bad-args"
+  | [Sexp.atom "needscompress", d, r] =>
+      match d.asNat?, r.asNat? with
+      | some d, some r => "ok " ++ (if needsCompress d r then "true" else "false")
+      | _, _ => "err bad-args"
+  | [Sexp.atom "compress", g, q, r] =>
+      -- checks the hypotheses of `compress_rank` (Qᵀ Q = 1, Pᵀ = Q R) exactly before answering
+      match ng? g, ratRows? q, ratRows? r with
+      | some g, some q, some r =>
+          let Q := ofRows q
+          let R := ofRows r
+          let d := g.dim
+          let orth := matEq d d (matMul g.rank (tr Q) Q) idM
+          let fact := matEq g.rank d (tr g.P) (matMul d Q R)
+          if !(orth && fact) then "ok declined" else
+          let (s, shift) := g.raw.compressWith Q R
+          "ok " ++ toString (Sexp.list [ngToSexp { inputs := g.inputs, rank := s.rank, w := s.w, P := s.P },
+                                         ratToSexp shift])
+      | _, _, _ => "err bad-args"
+  | _ => "err bad-request"
 
 end FV.Drv.C12
